@@ -150,7 +150,7 @@ PROPS["C11"] = dict(
     bounds=_JOIN_BOUNDS, assumptions=_JOIN_ASSUME,
     groups=[dict(mod="v2", pkg="join/unite", overlay="harness/v2/unite", harness="^VerifC03_unite_", params=_jp("unite")), _UNITE_WIDE, _UNITE_LARGE])
 
-_LIM = dict(quick=dict(M=[0, 1, 2, 3, 4, 5]), thorough=dict(M=[0, 1, 2, 3, 4, 5, 6, 7]))
+_LIM = dict(quick=dict(M=[0, 1, 2, 3, 4, 5]), thorough=dict(M=[0, 1, 2, 3, 4, 5, 6]))
 for _pid in ("C04", "C12"):
     PROPS[_pid] = dict(
         level="model_checking",
@@ -162,7 +162,7 @@ for _pid in ("C04", "C12"):
         bounds=dict(quick="M in 0..5", thorough="M in 0..7"),
         assumptions=["time model of DESIGN 3.6: lower bounds only (arbitrary delays anywhere); Sleep(d) advances by >= d",
                      "count formulas follow from the per-batch facts: count <= (k+1)*Q and t >= k*I  =>  count <= Q*(floor(t/I)+1); window: (j-i-1)*I <= W => count <= Q*(floor(W/I)+2)"],
-        groups=[dict(mod="v2", pkg="limit", overlay="harness/v2/limit", harness="^VerifC04_limit_run", params=_LIM, timeout=dict(quick=30000, thorough=120000))])
+        groups=[dict(mod="v2", pkg="limit", overlay="harness/v2/limit", harness="^VerifC04_limit_run", params=_LIM, timeout=dict(quick=120000, thorough=300000))])
 
 # ---- priority discipline ------------------------------------------------------------------------------
 
